@@ -507,16 +507,37 @@ func runC13(c C13Case, cs *kit.CaseStats) (err error) {
 		for i, t := range pool {
 			poolIDs[t.ID()] = i
 		}
-		// ask for the broadcastable set of every pooled transaction
+		// ask for the broadcastable set of every pooled transaction - with the
+		// pool's copy and basis = tip, and (where the caller still has it) with
+		// the caller's original copy and its original basis
+		origByID := map[types.TransactionID]types.V2Transaction{}
+		for i := range set {
+			origByID[set[i].ID()] = set[i]
+		}
+		type ask struct {
+			basis types.ChainIndex
+			txn   types.V2Transaction
+		}
+		var asks []ask
 		for _, target := range pool {
+			asks = append(asks, ask{tip.Index(), target})
+			if o, ok := origByID[target.ID()]; ok && from.Index() != tip.Index() && dist <= 144 {
+				asks = append(asks, ask{from.Index(), o})
+			}
+		}
+		for _, a := range asks {
+			target := a.txn
 			arg := target.DeepCopy()
 			argEnc := encV2(arg)
-			gotBasis, got, serr := node.CM.V2TransactionSet(tip.Index(), arg)
+			if a.basis != tip.Index() {
+				cs.Class("broadcast-set-asked-with-stale-basis")
+			}
+			gotBasis, got, serr := node.CM.V2TransactionSet(a.basis, arg)
 			if !bytes.Equal(encV2(arg), argEnc) {
 				return fmt.Errorf("V2TransactionSet modified the caller's transaction")
 			}
 			if serr != nil {
-				return fmt.Errorf("V2TransactionSet(tip, pooled %v) failed: %v", target.ID(), serr)
+				return fmt.Errorf("V2TransactionSet(basis %v, pooled %v) with tip %v failed: %v", a.basis, target.ID(), tip.Index(), serr)
 			}
 			if gotBasis != tip.Index() {
 				return fmt.Errorf("V2TransactionSet returned basis %v, tip is %v", gotBasis, tip.Index())
